@@ -767,7 +767,24 @@ func (e *Env) evalCall(n *ast.CallExpr) (SVal, error) {
 			if err != nil {
 				return SVal{}, err
 			}
+			if it, isIface := under(ty).(*types.Interface); isIface {
+				// typeis(x, I) for an interface type I: x holds a value whose type implements I
+				if it.Empty() {
+					return SVal{Not(Eq(v.T, Term{"nil_iface", SIface})), boolT}, nil
+				}
+				return SVal{And(Not(Eq(v.T, Term{"nil_iface", SIface})), App(SBool, "implements", App(SInt, "ityp", v.T), IntLit(int64(vc.tc.IfaceID(ty))))), boolT}, nil
+			}
 			return SVal{Eq(App(SInt, "ityp", v.T), IntLit(int64(vc.tc.TypeID(ty)))), boolT}, nil
+		case "errorsNewValue":
+			// the value was made by errors.New (dynamic type *errors.errorString, which no repository type is)
+			if err := need(1); err != nil {
+				return SVal{}, err
+			}
+			v, err := e.Eval(n.Args[0])
+			if err != nil {
+				return SVal{}, err
+			}
+			return SVal{Eq(App(SInt, "ityp", v.T), IntLit(errorsNewTypeID)), boolT}, nil
 		case "ite":
 			if err := need(3); err != nil {
 				return SVal{}, err
